@@ -552,11 +552,20 @@ def run(ctx):
         treqs.append(f"tfld {N} {enc_mat(np.abs(S0))} {bits(rho)}")
         timpl.append(th)
         ctx.count("tfld")
+    outside = []
+    eps = Fraction(1, 10 ** 9)
     for _ in range(300 if quick else 3000):
-        ln = rng.choice([2, 6, 12, 20, 30, 56, 90, 132, 1000, 9900])
+        ln = rng.choice([2, 6, 12, 20, 30, 56, 90, 132, 1000, 9900, 999000])
         rho = rng.choice([rng.randrange(0, ln + 1) / ln, rng.random(),
                           rng.randrange(0, 101) / 100])
+        k = int((1 - rho) * ln)
         treqs.append(f"index {bits(rho)} {ln}")
-        timpl.append(str(int((1 - rho) * ln)))
+        timpl.append(str(k))
+        x = (1 - Fraction(rho)) * ln
+        if not (x - 1 - eps <= k <= x + eps):
+            outside.append((rho, ln, k))
         ctx.count("float-index")
     ctx.correspond("threshold_from_link_density and IEEE index evaluation", treqs, timpl)
+    ctx.obligation("IEEE evaluation of int((1-rho)*len) lies in [x-1-eps, x+eps], eps=1e-9 "
+                   "(index hypotheses of density_le_request / density_gap_le_ties)",
+                   "trusted-base-probe", not outside, repr(outside[:5]))
